@@ -24,7 +24,7 @@ def write_and_replay(prop, o, root, undecided=False):
         fn = replays.find(o['name'])
     except Exception:
         fn = None
-    if fn is not None and not undecided:
+    if fn is not None:      # also for an undecided obligation: a failing input found on the real code settles it
         try:
             out = fn(o, root)
             rec['replayed'] = True
